@@ -229,9 +229,21 @@ def main():
         import multiprocessing as mp
         from concurrent.futures import ProcessPoolExecutor
 
-        with ProcessPoolExecutor(max_workers=jobs, mp_context=mp.get_context("fork")) as ex:
+        ex = ProcessPoolExecutor(max_workers=jobs, mp_context=mp.get_context("fork"))
+        try:
             for r in ex.map(_run_shard, work):
                 merged.merge(r)
+        finally:
+            # Code under test may leave a real (non-daemon) thread blocked for good in a worker - that is a finding of the shard
+            # that saw it, but it must not keep the worker, and with it this run, from ever ending: the workers are killed, not
+            # waited for.
+            procs = list((getattr(ex, "_processes", None) or {}).values())
+            ex.shutdown(wait=False, cancel_futures=True)
+            for p_ in procs:
+                try:
+                    p_.kill()
+                except Exception:  # noqa
+                    pass
     errs = [n for n in merged.notes if n.startswith("MACHINERY-ERROR")]
     if errs:
         print(errs[0], file=sys.stderr)
@@ -282,7 +294,10 @@ def main():
         f"distinct_nontrivial={c.get('distinct_nontrivial',0)} known={len(merged.viol)-len(new)} new={len(new)} "
         f"wall={wall:.1f}s evidence={path}"
     )
-    sys.exit(rc)
+    # (not sys.exit: with --jobs 1 a thread the code under test left blocked would keep the interpreter from shutting down)
+    sys.stdout.flush()
+    sys.stderr.flush()
+    os._exit(rc)
 
 
 if __name__ == "__main__":
